@@ -482,7 +482,8 @@ def clampDecimal (s : Style) : Style :=
   | some d => if d < 0 ∨ d > 30 then { s with decimalPlaces := some 2 } else s
   | none => s
 
-/-- the font step of `NewStyle`: look up, else append (id from `Count`) -/
+/-- the font step of `NewStyle`: look up, else append; the id is the position in the list and `Count`
+is set to the element count (also for a style sheet whose count attribute was wrong) -/
 def addFont (r : Reg) (s : Style) : Except Err (Reg × Nat × Style) :=
   match s.font with
   | none => .ok (r, 0, s)
@@ -497,8 +498,9 @@ def addFont (r : Reg) (s : Style) : Except Err (Reg × Nat × Style) :=
         match newFont r f with
         | .error e => .error e
         | .ok (xf, f') =>
-          .ok ({ r with fontsCount := r.fontsCount + 1, fonts := r.fonts ++ [xf] },
-               (r.fontsCount + 1) - 1, { s' with font := some f' })
+          -- `append`, then `Count = len(Font)`, id `Count - 1` (position in the list)
+          .ok ({ r with fontsCount := r.fonts.length + 1, fonts := r.fonts ++ [xf] },
+               (r.fonts.length + 1) - 1, { s' with font := some f' })
 
 /-- the border step of `NewStyle` -/
 def addBorder (r : Reg) (s : Style) : Reg × Nat :=
@@ -506,8 +508,8 @@ def addBorder (r : Reg) (s : Style) : Reg × Nat :=
   | some i => (r, i)
   | none =>
     if s.border = [] then (r, 0)
-    else ({ r with bordersCount := r.bordersCount + 1, borders := r.borders ++ [newBorders s.border] },
-          (r.bordersCount + 1) - 1)
+    else ({ r with bordersCount := r.borders.length + 1, borders := r.borders ++ [newBorders s.border] },
+          (r.borders.length + 1) - 1)
 
 /-- the fill step of `NewStyle` -/
 def addFill (r : Reg) (s : Style) : Reg × Nat :=
@@ -515,7 +517,7 @@ def addFill (r : Reg) (s : Style) : Reg × Nat :=
   | some i => (r, i)
   | none =>
     match newFills s.fill with
-    | some x => ({ r with fillsCount := r.fillsCount + 1, fills := r.fills ++ [x] }, (r.fillsCount + 1) - 1)
+    | some x => ({ r with fillsCount := r.fills.length + 1, fills := r.fills ++ [x] }, (r.fills.length + 1) - 1)
     | none => (r, 0)
 
 /-- `NewStyle` after `getStyleID` found nothing -/
